@@ -231,7 +231,7 @@ fn gen_block<F: PrimeField>(
             0 => push(&mut ops, sym, Op::Challenge { label: 4 + below(rng, 2) }),
             1 | 2 | 3 if can_gate => {
                 let l = gen_expr(rng, &cx, kn.expr_depth);
-                let r = gen_expr(rng, &cx, kn.expr_depth);
+                let r = if chance(rng, 1, 8) { l.clone() } else { gen_expr(rng, &cx, kn.expr_depth) };
                 push(&mut ops, sym, Op::Mul(l, r));
                 *gate_budget -= 1;
             }
@@ -374,7 +374,8 @@ pub fn gen_statement<F: PrimeField>(rng: &mut Rng, curve: Curve, kn: &Knobs) -> 
             }
             6 | 7 | 8 if can_gate => {
                 let l = gen_expr(rng, &cx, kn.expr_depth);
-                let r = gen_expr(rng, &cx, kn.expr_depth);
+                // squaring: structurally identical inputs now and then
+                let r = if chance(rng, 1, 8) { l.clone() } else { gen_expr(rng, &cx, kn.expr_depth) };
                 g.model.multiply(&l, &r);
                 g.ops.push(Op::Mul(l, r));
             }
@@ -495,6 +496,28 @@ pub fn gen_statement<F: PrimeField>(rng: &mut Rng, curve: Curve, kn: &Knobs) -> 
     }
 }
 
+/// A large satisfiable circuit: `gates` multiplication gates split over the
+/// two phases, chained so that every gate matters.
+pub fn gen_large_statement<F: PrimeField>(rng: &mut Rng, curve: Curve, gates: usize) -> Statement {
+    let two_phase = chance(rng, 1, 2);
+    let g1 = if two_phase { below(rng, gates + 1) } else { gates };
+    let mut ops = vec![Op::Commit { v: S::U(3), r: S::U(17) }];
+    // table: 0 = commitment; gate i -> entries 1+3i .. 3+3i
+    for i in 0..g1 {
+        let prev_out = if i == 0 { Expr::V(0) } else { Expr::V(3 * i) };
+        ops.push(Op::Mul(prev_out, Expr::add(Expr::V(0), Expr::K(S::U(i as u64 % 5)))));
+    }
+    if two_phase {
+        let mut b = vec![Op::Challenge { label: 5 }];
+        for i in g1..gates {
+            let prev_out = if i == 0 { Expr::V(0) } else { Expr::V(3 * i) };
+            b.push(Op::Mul(prev_out, Expr::scale(Expr::V(0), Coef::Chal(S::U(1), vec![0]))));
+        }
+        ops.push(Op::Randomized(b));
+    }
+    Statement { curve, tlabel: 0, pre: vec![], bases: Bases::Default, ops }
+}
+
 fn phase1_table_len_ops(ops: &[Op]) -> usize {
     ops.iter().map(op_outputs).sum()
 }
@@ -582,6 +605,23 @@ pub fn scripted(curve: Curve) -> Vec<(&'static str, Statement)> {
                 Op::Constrain(Expr::Raw(VK::R(0))),
             ]),
         ]),
+    ));
+    // second phase whose only gates have zero outputs (a half-open allocate;
+    // a product with a zero factor): A_O2 must still be blinded
+    out.push((
+        "phase2-gates-with-zero-outputs",
+        base(vec![
+            Op::AllocMul(Some((lit(2), lit(3)))),
+            Op::Randomized(vec![
+                Op::Challenge { label: 5 },
+                Op::Mul(Expr::K(S::U(0)), Expr::V(0)),
+                Op::Alloc(Some(lit(7))),
+            ]),
+        ]),
+    ));
+    out.push((
+        "phase2-single-open-allocate",
+        base(vec![Op::Randomized(vec![Op::Alloc(Some(lit(9)))])]),
     ));
     out.push((
         "phase2-present-gate-free",
